@@ -426,6 +426,61 @@ def scen_identity(rng):
     return {'tree': [], 'funcs': funcs, 'steps': steps}
 
 
+def scen_stamped(rng):
+    """an output whose function stamps a fixed modification time on it (and whose size rarely changes):
+    a rebuild preserves size and mtime although the content changes"""
+    inp = rng.choice(PATHS2)
+    out = rng.choice([p for p in PATHS2 if p != inp and not p.startswith(inp + '/') and not inp.startswith(p + '/')])
+    c_out, c_in, c_back = (rng.choice('HHM') for _ in range(3))
+    stamp = 4242
+    funcs = [
+        _fn('f0', [_bf(out, 1, cmp_=c_out, catch=True), _sb(2, catch=True)]),
+        _fn('f1', [_q('read', inp, c_in), ['w', None, stamp]]),
+        _fn('f2', [_q('read', out, c_back)]),
+    ]
+    funcs.append(_fn('rootfail', funcs[0]['stmts'] + [['raise', 99]]))
+    tree = [[inp, 'file', 'i%d' % rng.randint(0, 9), 150]]
+    steps = [_build()]
+    for i in range(rng.randint(1, 3)):
+        k = rng.choice(['write', 'write', 'touch', 'tamper', 'none'])
+        if k == 'tamper':
+            steps.append(['mut', 'samemeta', out, None, None])
+        elif k != 'none':
+            steps.append(['mut', k, inp, 'm%d' % rng.randint(0, 9), 7100 + 10 * i])
+        steps.append(_build(root=rng.choice([0, 0, 0, 3])))
+    steps.append(_build())
+    c = {'tree': tree, 'funcs': funcs, 'steps': steps}
+    if 'M' in (c_out, c_back):
+        c['no_spec'] = True
+    return c
+
+
+def scen_cache_subdir(rng):
+    """the cache file lives in a directory the build has to create - its own, or one it shares with
+    outputs.  (Directories that exist only to hold the cache file are not observed: no query looks at
+    them or lists their parent.)"""
+    d1, d2 = rng.sample(NAMES, 2)
+    where = rng.choice(['own', 'own_deep', 'shared'])
+    if where == 'own':
+        cache = 'k/cache.gz'; out1 = '%s/x' % d1
+    elif where == 'own_deep':
+        cache = 'k/j/cache.gz'; out1 = '%s/x' % d1
+    else:
+        cache = '%s/cache.gz' % d1; out1 = '%s/x' % d1
+    out2 = '%s/%s/y' % (d2, d1)
+    funcs = [
+        _fn('f0', [['if', ['arg', _e(0)], [_bf(out1, 1, catch=True), _bf(out2, 1, arg=1, catch=True)], [_bf(out2, 1, arg=1, catch=True)]],
+                   _q('is_file', out2), _q('list_dir', d2)]),
+        _fn('f1', [['w', None]]),
+    ]
+    funcs.append(_fn('rootfail', funcs[0]['stmts'] + [['raise', 99]]))
+    steps = [_build(arg=0), _build(arg=rng.choice([0, 1])), _build(arg=0, root=rng.choice([0, 0, 2])), _build(arg=rng.choice([0, 1]))]
+    steps.append(['clean', rng.choice(['n', None])])
+    if rng.random() < 0.4:
+        steps += [_build(arg=0), ['clean', 'n']]
+    return {'tree': [], 'funcs': funcs, 'steps': steps, 'cache': cache}
+
+
 LONG = 'L' * 300   # longer than NAME_MAX
 
 
@@ -465,6 +520,7 @@ def gen_scenario_cases(seed, per_family, dirsize=4096, families=SCENARIOS):
         for i in range(per_family):
             rng = random.Random(seed * 1009 + fi * 100003 + i)
             c = fam(rng)
-            c.update({'kind': 'hist', 'seed': 'scen:%s:%d:%d' % (fam.__name__, seed, i), 'dirsize': dirsize, 'cache': 'cache.gz'})
+            c.update({'kind': 'hist', 'seed': 'scen:%s:%d:%d' % (fam.__name__, seed, i), 'dirsize': dirsize})
+            c.setdefault('cache', 'cache.gz')
             out.append(c)
     return out
